@@ -603,6 +603,42 @@ async def test_circular_resource_dependency_detection() -> None:
 
 
 @pytest.mark.asyncio
+async def test_concurrent_steps_resolving_same_async_resource() -> None:
+    """Overlapping resolutions must not report a false cycle or share scoped values."""
+    import asyncio
+
+    gate = asyncio.Event()
+    calls = {"conn": 0, "scoped": 0}
+
+    async def get_conn() -> object:
+        calls["conn"] += 1
+        await gate.wait()
+        return object()
+
+    def get_scoped() -> object:
+        calls["scoped"] += 1
+        return object()
+
+    conn = Resource(get_conn)
+    scoped = Resource(get_scoped, cache=False)
+    manager = ResourceManager()
+
+    async def invocation() -> tuple[object, object]:
+        async with manager.resolution_scope():
+            return await manager.get(scoped), await manager.get(conn)
+
+    first = asyncio.ensure_future(invocation())
+    second = asyncio.ensure_future(invocation())
+    await asyncio.sleep(0)
+    await asyncio.sleep(0)
+    gate.set()
+    (scoped_1, conn_1), (scoped_2, conn_2) = await asyncio.gather(first, second)
+    assert conn_1 is conn_2
+    assert scoped_1 is not scoped_2
+    assert calls == {"conn": 1, "scoped": 2}
+
+
+@pytest.mark.asyncio
 async def test_non_cached_resource_single_resolution_cycle() -> None:
     """Non-cached resources should resolve once per dependency graph."""
     call_counts = {"d": 0}
